@@ -104,6 +104,54 @@ theorem tie_generated_sound : ∀ x ∈ bindings, ∀ i ∈ x.b.items,
       || unsoundPairs.contains (i, x.b.mutator) = true := by
   decide +kernel
 
+/-! ### read sets: what the function that computes a cached value reads -/
+
+def attrFields (cls : String) (attrs : List String) : List Field :=
+  dedup (attrs.flatMap fun a => fieldsOf ⟨cls, "", [], .assign a false []⟩)
+
+/-- the `self` attributes the body of a getter / method reads -/
+def bodyReads (cls name : String) : List String :=
+  match Gen.C11.table.methods.find? (fun m => m.cls == cls && m.name == name && m.kind != "setter") with
+  | some m => m.reads
+  | none => []
+
+/-- the `self` attributes the value assigned to `attr` in a method / setter is computed from (first such assignment) -/
+def assignSrcs (cls name : String) (setter : Bool) (attr : String) : List String :=
+  match Gen.C11.table.find cls name setter with
+  | some m => (m.effs.findSome? fun e => match e.op with
+      | .assign a false srcs => if bare a == attr then some srcs else none
+      | _ => none).getD []
+  | none => []
+
+/-- The fields each cache's deriving code reads, from the extracted table: `_create_occupancy_set`; the recomputation inside the
+    `initial_state` setter (plus its parameter, the new state); the `_polygon` assignment; the lazy `distance` / `inner_distance`
+    getters; the `_buffered_polygons` comprehension over `_lanelets` (plus the polygons of those lanelets); the
+    `cycle_init_timesteps` getter. -/
+def deriveReads : Item → List Field
+  | .occupancySet => attrFields "TrajectoryPrediction" (bodyReads "TrajectoryPrediction" "_create_occupancy_set")
+  | .initialOccupancy => attrFields "Obstacle" (assignSrcs "Obstacle" "initial_state" true "initial_occupancy_shape") ++ [.obsInitialState]
+  | .laneletPolygon => attrFields "Lanelet" (assignSrcs "Lanelet" "translate_rotate" false "polygon")
+  | .laneletDistance => attrFields "Lanelet" (bodyReads "Lanelet" "distance")
+  | .laneletInnerDistance => attrFields "Lanelet" (bodyReads "Lanelet" "inner_distance")
+  | .networkIndex => attrFields "LaneletNetwork" (assignSrcs "LaneletNetwork" "translate_rotate" false "buffered_polygons") ++ [.lanFootprint]
+  | .cycleInit => attrFields "TrafficLightCycle" (bodyReads "TrafficLightCycle" "cycle_init_timesteps")
+
+/-- Aspects of an attribute the derived value does not depend on although the attribute is read (hand-written, semantic):
+    cumulative lengths do not depend on the pose; the polygon as stored is the vertex arrays as stored; the cumulative time steps
+    read `duration` of the elements only. -/
+def readRefinement : Item → List Field
+  | .laneletPolygon => [.lanIntrinsic, .lanFootprint]
+  | .laneletDistance => [.lanVertices, .lanFootprint]
+  | .laneletInnerDistance => [.lanVertices, .lanFootprint]
+  | .cycleInit => [.cycStates]
+  | _ => []
+
+/-- THE TIE (read sets): the model's `reads` of every cache are fields of attributes its deriving code reads, and that code reads
+    nothing else that a mutator of the model can write (up to the refinements above). -/
+theorem tie_reads : ∀ i ∈ allItems,
+    ((reads i).all (deriveReads i).contains && (deriveReads i).all (reads i ++ readRefinement i).contains) = true := by
+  decide +kernel
+
 /-- `Scenario.translate_rotate` / `convert_to_2d` only delegate: their effects are those of the network's and the obstacles'
     methods (the model has no separate mutator for the scenario level). -/
 theorem tie_scenario_delegates :
@@ -190,34 +238,53 @@ theorem tie_static_translate_rotate (hw : Bool) (o : Obs) (hd : o.dynamic = fals
 theorem sliceLast_pos {α : Type} (l : List α) (m : Int) (hm : 0 < m) : sliceLast l m = lastN m.toNat l := by
   simp [sliceLast, lastN, hm]
 
-/-- THE HISTORY LOGIC of `update_initial_state` as the current source has it: for a positive bound the translated body is the
-    model's `updateInitialState` step (append the replaced state / signal / lanelet ids, new initial data, prediction := None,
-    keep the last `m` of all four lists); a non-positive bound fails the assertion before anything is changed. -/
-theorem tie_update_initial_state (hw : Bool) (o : Obs) (hd : o.dynamic = true) (v : Nat) (t0 : Int) (sig cen shp : Nat) (m : Int) :
+theorem lastN_eq_self {α : Type} {l : List α} {k : Nat} (h : l.length ≤ k) : lastN k l = l := by
+  have : l.length - k = 0 := by omega
+  simp [lastN, this]
+
+/-- THE HISTORY LOGIC of `update_initial_state` as the current source has it: on an obstacle whose four history lists have equal
+    length (an invariant of every operation: C11_history_equal_length) and for a positive bound, the translated body is the model's
+    `updateInitialState` step (append the replaced state / signal / lanelet ids, new initial data, prediction := None, keep the
+    last `m` of all four lists); a non-positive bound fails the assertion before anything is changed.  The proof does not
+    depend on how the "too long" test is written, only on what is kept (truncating a list that is short enough changes nothing). -/
+theorem tie_update_initial_state (hw : Bool) (o : Obs) (hd : o.dynamic = true)
+    (he : o.sigHist.length = o.hist.length ∧ o.cenHist.length = o.hist.length ∧ o.shpHist.length = o.hist.length)
+    (v : Nat) (t0 : Int) (sig cen shp : Nat) (m : Int) :
     Gen.DynamicObstacle_update_initial_state hw o (v, t0) sig cen shp m
-      = (if m ≤ 0 then .error .assert else .ok (o.step (.updateInitialState v t0 sig cen shp m)).2)
-    ∧ (m ≤ 0 → o.step (.updateInitialState v t0 sig cen shp m) = (.err .assert, o)) := by
-  constructor
-  · unfold Gen.DynamicObstacle_update_initial_state
-    by_cases hm : m ≤ 0
-    · have : ¬ m > 0 := by omega
-      simp [CR.Py.assert, hm, this, bind, Except.bind]
-    · have hpos : 0 < m := by omega
-      have hlen : ∀ n : Nat, ((n : Int) > m) = (n > m.toNat) := by
-        intro n; apply propext; omega
-      simp only [CR.Py.assert, gt_iff_lt, hpos, decide_true, if_true, hm, if_false, bind, Except.bind, tie_set_initial_state,
-        Gen.DynamicObstacle_set_prediction, Id.run, pure, sliceLast_pos _ _ hpos]
-      simp only [Obs.step, hd, Bool.not_true, Bool.false_eq_true, if_false, hm, act, Action.applySimple, Action.apply,
-        Obs.freshInitOcc, Pred.adopt, Option.map_none, List.length_append, List.length_cons, List.length_nil]
-      by_cases hl : o.hist.length + 1 > m.toNat
-      · have hl' : m < ((o.hist.length + 1 : Nat) : Int) := by omega
-        simp [hl, hl', pure, Except.pure]
-        intro h; exfalso; omega
-      · have hl' : ¬ m < ((o.hist.length + 1 : Nat) : Int) := by omega
-        simp [hl, hl', pure, Except.pure]
-        intro h; exfalso; omega
-  · intro hm
-    simp [Obs.step, hd, hm]
+      = (if m ≤ 0 then .error .assert else .ok (o.step (.updateInitialState v t0 sig cen shp m)).2) := by
+  obtain ⟨h1, h2, h3⟩ := he
+  unfold Gen.DynamicObstacle_update_initial_state
+  by_cases hm : m ≤ 0
+  · have : ¬ m > 0 := by omega
+    simp [CR.Py.assert, hm, this, bind, Except.bind]
+  · have hpos : 0 < m := by omega
+    simp only [CR.Py.assert, gt_iff_lt, ge_iff_le, hpos, decide_true, if_true, hm, if_false, bind, Except.bind, tie_set_initial_state,
+      Gen.DynamicObstacle_set_prediction, Id.run, pure, Except.pure, sliceLast_pos _ _ hpos]
+    simp only [Obs.step, hd, Bool.not_true, Bool.false_eq_true, if_false, hm, act, Action.applySimple, Action.apply,
+      Obs.freshInitOcc, List.length_append, List.length_cons, List.length_nil]
+    -- both sides: the same record up to "truncate or not"
+    repeat' split
+    all_goals (first
+      | rfl
+      | (simp only [Except.ok.injEq, Obs.mk.injEq, true_and, and_true]
+         refine ⟨?_, ?_, ?_, ?_⟩ <;> first
+           | rfl
+           | (symm; apply lastN_eq_self; simp only [List.length_append, List.length_cons, List.length_nil]; simp at *; omega)
+           | (apply lastN_eq_self; simp only [List.length_append, List.length_cons, List.length_nil]; simp at *; omega))
+      | (exfalso; simp at *; omega))
+
+/-- the model's side of a non-positive bound: the step answers `assert` and leaves the obstacle as it is -/
+theorem tie_update_initial_state_bad_bound (o : Obs) (hd : o.dynamic = true) (v : Nat) (t0 : Int) (sig cen shp : Nat) (m : Int)
+    (hm : m ≤ 0) : o.step (.updateInitialState v t0 sig cen shp m) = (.err .assert, o) := by
+  simp [Obs.step, hd, hm]
+
+/-- the hypotheses of the history tie are satisfiable and the bound bites: three updates with bound 2 keep the last two -/
+example : (do
+    let o : Obs := ⟨true, 0, 0, 0, some (0, 0), none, 0, 0, 0, [], [], [], []⟩
+    let o ← Gen.DynamicObstacle_update_initial_state false o (1, 1) 1 1 1 2
+    let o ← Gen.DynamicObstacle_update_initial_state false o (2, 2) 2 2 2 2
+    let o ← Gen.DynamicObstacle_update_initial_state false o (3, 3) 3 3 3 2
+    pure (o.hist.map (·.base), o.sigHist)) = (.ok ([1, 2], [1, 2]) : Res _) := by decide
 
 /-- The cycle's setters: `cycle_elements=` and `time_offset=` empty the slot of the cumulative time steps, `active=` leaves it
     (the model's `cycSpec.step … (.mutate …)`). -/
